@@ -26,6 +26,8 @@ func init() {
 			ruleIndexRebuilt(c, "R6a")
 			ruleIndexRebuildComplete(c, "R6b")
 			ruleRemoveAllDropsEverything(c, "R7")
+			ruleExhaustiveWalks(c, "R8", []string{"tree.(*node).clean"}, "a cleaned route is no longer reported: Clean visits every child")
+			ruleCleanTestsEveryChild(c, "R8b")
 		},
 	})
 }
